@@ -95,18 +95,23 @@ def Bundle.checkAllCrc (b : Bundle) : List Nat :=
 def recvGate {σ ε : Type} (rest : σ → Bundle → σ × List ε) (s : σ) (b : Bundle) : σ × List ε :=
   if b.checkAllCrc.isEmpty then rest s b else (s, [])
 
-/-- Bundle identity as `BundleContainer.bundle_ident()` forms it (source, time, seq, and the
-    fragment pair when the bundle is a fragment). -/
+/-- Bundle identity as `BundleContainer.bundle_ident()` forms it: source, time, seq, and for a
+    fragment its offset and the length of its own payload (block number 1; `none` when absent). -/
 structure Ident where
   src : Eid
   time : Nat
   seq : Nat
-  frag : Option (Nat × Nat)
+  frag : Option (Nat × Option Nat)
   deriving DecidableEq, Repr
+
+def payloadLen (b : Bundle) : Option Nat :=
+  match b.blocks.reverse.find? (fun c => c.blockNum == 1) with
+  | some c => c.btsd.map List.length
+  | none => none
 
 def Bundle.ident (b : Bundle) : Ident :=
   { src := b.primary.src, time := b.primary.ts.time, seq := b.primary.ts.seq,
-    frag := if isFragment b.primary.flags then some (b.primary.fragOff, b.primary.totalLen) else none }
+    frag := if isFragment b.primary.flags then some (b.primary.fragOff, payloadLen b) else none }
 
 inductive RxEffect where
   | ignoredOwn | ignoredSeen | accepted (id : Ident)
